@@ -59,6 +59,16 @@ pub fn edit_tree(rng: &mut Rng, t: &T) -> Option<(T, &'static str)> {
     T::Replace(i, rs) => {
       let mut x = rs.clone();
       if rs.is_empty() || rng.chance(4) { x.push(ReplT { start: 0, end: 0, content: "ins".into(), name: None, enforce: 1 }); return Some((T::Replace(i.clone(), x), "replacement-added")) }
+      // two replacements with the same (start, end, enforce) but different content: their insertion order decides source()
+      if rng.chance(3) {
+        for a in 0..rs.len() { for b in a + 1..rs.len() {
+          if rs[a].start == rs[b].start && rs[a].end == rs[b].end && rs[a].enforce == rs[b].enforce && rs[a].content != rs[b].content { x.swap(a, b); return Some((T::Replace(i.clone(), x), "replacement-order-of-ties")) }
+        } }
+        // make a tie
+        let mut y = rs[0].clone(); y.content.push('t'); x.insert(0, y);
+        let mut z = x.clone(); z.swap(0, 1);
+        return None.or(Some((T::Replace(i.clone(), z), "replacement-added")));
+      }
       let k = rng.below(rs.len());
       let isrc = src_of(i);
       let ok = |p: u32| p as usize >= isrc.len() || isrc.is_char_boundary(p as usize);
